@@ -31,7 +31,7 @@ fn band(run: &Run) -> f64 {
 
 fn decl(run: &Run, words: usize, units: usize, discrete: bool) -> Decl {
     let t = run.thorough();
-    Decl { max_words: words, max_units: units, jb: if t { 64 } else { 24 }, jw: if t { 32 } else { 12 }, gu: if t { [1 << 16, 256, 64, 64] } else { [1 << 13, 64, 32, 32] }, gw: if t { 128 } else { 32 }, discrete, max_leaves: if t { 40_000_000 } else { 1_500_000 }, max_runs: if t { 1_500_000_000 } else { 25_000_000 } }
+    Decl { max_words: words, max_units: units, jb: if t { 64 } else { 24 }, jw: if t { 32 } else { 12 }, gu: if t { [1 << 16, 256, 64, 64] } else { [1 << 13, 64, 32, 32] }, gw: if t { 128 } else { 32 }, discrete, max_leaves: if t { 40_000_000 } else { 400_000 }, max_runs: if t { 1_500_000_000 } else { 6_000_000 } }
 }
 
 fn cases(run: &Run) -> Vec<Case> {
@@ -144,9 +144,11 @@ impl StreamVerdict {
         }
     }
 }
-const STREAM_N: usize = 4_000_000;
+/// draws of the stream criterion: 4e6 (band 1.9e-3); the quick tier uses 1e6 (band 3.8e-3, still less than half
+/// the quick band 8.4e-3 of the exact engine, so that a deviation the engine reports is confirmed)
+static STREAM_N: std::sync::atomic::AtomicUsize = std::sync::atomic::AtomicUsize::new(4_000_000);
 fn stream_check(sample: &(dyn Fn() -> f64 + Sync), cdf: &dyn Fn(f64) -> f64, support: (f64, f64), discrete: bool, seed: u64) -> StreamVerdict {
-    let n = STREAM_N;
+    let n = STREAM_N.load(std::sync::atomic::Ordering::Relaxed);
     let eps = ((2.0f64 / 1e-12).ln() / (2.0 * n as f64)).sqrt();
     let mut v = StreamVerdict { n, seed, terminated: true, panic: None, outside: None, d: 0.0, at: f64::NAN, eps };
     alea::set_seed(seed);
@@ -258,10 +260,14 @@ fn run_case(run: &Run, c: &Case, eps: f64) -> Option<Explored> {
             run.violate(&format!("{}/outside-support", site), || format!("{}: draw {:e}..{:e} outside [{:e},{:e}] on script {:?}", desc(), l.lo, l.hi, c.support.0, c.support.1, short(&l.script)));
             break;
         }
-        if c.decl.discrete && (l.lo != l.hi || l.lo.fract() != 0.0) {
+        if c.decl.discrete && (l.lo.fract() != 0.0 || l.hi.fract() != 0.0) {
+            // a value that was actually returned on a concrete script
             run.violate(&format!("{}/not-integer", site), || format!("{}: non-integer draw {:e}..{:e} on script {:?}", desc(), l.lo, l.hi, short(&l.script)));
             break;
         }
+    }
+    if c.decl.discrete && ex.leaves.iter().any(|l| l.lo != l.hi) {
+        return settle(confirm(&format!("{}/law", site), "engine: a cell of generator answers yields several different integers (the partition of raw words does not resolve this sampler)".to_string()));
     }
     if let Some(pt) = c.degenerate {
         if ex.leaves.iter().any(|l| l.lo != pt || l.hi != pt) {
@@ -562,7 +568,11 @@ fn mvn_affine(run: &Run) {
     // a pool of words each of which yields a standard normal directly (one request, no rejection)
     let mut pool: Vec<(u64, f64)> = Vec::new();
     let mut w = 0x2545_f491_4f6c_dd1du64;
-    while pool.len() < 24 {
+    let mut tried = 0usize;
+    // (bounded: a normal sampler that never finishes on a single word leaves the pool empty, and the
+    // scripted part below is skipped in favour of the stream criterion)
+    while pool.len() < 24 && tried < 4000 {
+        tried += 1;
         w = w.wrapping_mul(6364136223846793005).wrapping_add(1442695040888963407);
         let cand = w >> 11;
         if let Some(z) = z_of(cand) {
@@ -570,6 +580,11 @@ fn mvn_affine(run: &Run) {
                 pool.push((cand, z));
             }
         }
+    }
+    let scripted_normals = pool.len() == 24;
+    if !scripted_normals {
+        run.skip("the standard normal sampler does not produce a draw from a single generator word: MVN is decided by the stream criterion only");
+        run.regime("MVN: draw structure undecided by scripts");
     }
     for d in 1..=dims {
         let ls: Vec<(&str, Vec<f64>)> = vec![
@@ -616,6 +631,9 @@ fn mvn_affine(run: &Run) {
                 }
             };
             for (path, is_bulk) in [("sample", false), ("sample_n", true)] {
+                if !scripted_normals {
+                    break;
+                }
                 let draw1 = |ws: &[u64]| if is_bulk { bulk_n(ws, 1) } else { single(ws) };
                 run.case();
                 run.tr();
@@ -850,6 +868,10 @@ pub fn run(run: &Run) {
         Ok(n) => run.extra("reference_self_test_rows", serde_json::json!(n)),
         Err(e) => run.machinery_error(e),
     }
+    STREAM_N.store(run.tier.pick(1_000_000, 4_000_000), std::sync::atomic::Ordering::Relaxed);
+    // the exact engine gets 4 minutes (3 hours) of wall clock in all; what it has not decided by then goes
+    // to the stream criterion (on the present tree it needs 15 s / 90 s)
+    crate::common::envx::set_deadline_in(run.tier.pick(240, 3 * 3600));
     let eps = band(run);
     run.rule("every sampler × a parameter lattice hitting each algorithm branch; the RNG answers are enumerated: all 128 ziggurat layers × 2 signs × a refined partition of the 24-bit field, unit floats partitioned by continuation signature (gates located by bisection, value-producing draws subdivided 2^13 (2^16) fold, integer outputs split at every jump), bounded integers exhaustively; rejection bound 0 (a request beyond one loop iteration is a memoryless restart, its mass reported; loop-free samplers are declared generously (1 word, 2 units) so that a rewritten draw structure is still explored); the normalised leaf measure is compared with the reference CDF within the DKW band; two-stage samplers (Beta, T) through Q×Q quantile-reduced stage scripts run on the real composite sampler; multiplication-method Poisson path-wise against the product-of-uniforms model on all scripts of depth 6 (7) over 8 letters; MVN (sample and sample_n): the affine map of the scripted normals is recovered column by column and must satisfy A·Aᵀ = Σ and x = μ + A·z on every script over 5 words per coordinate, rows of bulk draws whitened with A must return the scripted normals, and (sampled, the property's own criterion) every whitened coordinate and two projections of 2e5 (4e6) draws lie in the DKW band; non-trivial = leaf reached through more than one draw");
     run.bound("DKW band", format!("{:.5}", eps));
